@@ -17,14 +17,35 @@ class C20(Check):
     extracted = ("dist",)
     harness_src = "harness/h_dist.c"
     link_parsec = True
-    level_text = ""
-    level_note = ""
+    level_text = ("Theorems for every process grid P,Q >= 1, every matrix/tile size and legal submatrix, every k-cyclicity "
+                  "kp,kq >= 1 and grid offset: rank_of < P*Q; the slot data_of uses is a bijection between the tiles a rank "
+                  "owns and [0, nb_local_tiles) (in range, injective, onto); the counts of all ranks add up to lmt*lnt (the "
+                  "stored triangle for the symmetric collection); data_key/key2coords round trip; vpid < nb_vp; tile memory "
+                  "ranges disjoint. Same for symmetric (lower with lnt <= lmt, upper on square tile grids), tabular, band and "
+                  "the diagonal vector distribution on square grids. Refuted with witnesses (findings): the key stored by "
+                  "the k-cyclic data_of, the vector ROW/COL distributions, the vector DIAG init on non-square grids. The "
+                  "model is tied to the code by running every rank's view of the real collections against the extracted "
+                  "model. Partial: the k-cyclic view (kview) is modelled, differentially tested and checked by the oracle, "
+                  "its permutation property is not proved; LAPACK storage offsets are modelled and tested, not proved.")
+    level_note = ("Trusted: Coq kernel, extraction, the harness (includes the distribution sources, redirects "
+                  "parsec_vpmap_get_nb_vp to an input, replaces data_map by a padded array and mat by a fake base). "
+                  "Assumes no int overflow (all products far below 2^31) and float-exact ceil(sqrt(nb_vp)) (nb_vp < 2^20).")
     technique = ("Coq proof (closed forms of the counting loops, mixed-radix decomposition of tile indices, sums over "
                  "the process grid) + differential run of the real collections, every rank impersonated, against the "
                  "extracted model + property oracle on the implementation's observations")
-    rule = ""
-    trusted = ()
-    assumptions = ()
+    rule = ("bc: exhaustive box P,Q<=3, kp,kq<=3, all grid offsets, mt,nt<=7 (whole matrix), plus sampled grids up to 32 "
+            "ranks, up to 40x40 tiles, submatrices, both storages; kv, sym (exhaustive small square box + sampled, "
+            "rectangular included), vec (box P,Q<=4 x 3 distributions + sampled), tab (random/cyclic tables), band: "
+            "sampled. Non-trivial = at least 2 ranks; distinct = distinct case text")
+    trusted = ("harness/h_dist.c: every rank is impersonated in one process through the myrank argument of the init "
+               "functions; data_map is replaced by a zero-padded array so that an out-of-range slot is observed instead "
+               "of corrupting the heap; each data_of result is destroyed again so that every call builds a fresh "
+               "parsec_data_t; a 150 ms / 5 s watchdog reports non-terminating loops",)
+    assumptions = ("int arithmetic does not overflow (sizes in the generator keep every product below 2^31)",
+                   "symmetric collections: lower storage needs lnt <= lmt, upper storage a square tile grid (outside "
+                   "this domain the slot can leave the data map: C20_sym_nonsquare_refuted); such cases are run for "
+                   "the correspondence but not judged by the oracle",
+                   "band: sub-collections without submatrix offsets, band matrix of at least 2*band_size-1 tile rows")
 
     # ------------------------------------------------------------------ cases
     def _bc(self, P, Q, mb, nb, lm, ln, i, j, m, n, kp, kq, ip, jq, nbvp, st, kind="bc"):
@@ -45,8 +66,6 @@ class C20(Check):
                             for jq in range(Q):
                                 for mt in range(1, mtmax + 1):
                                     for nt in range(1, mtmax + 1):
-                                        if quick and (mt * 7 + nt * 3 + P + Q * 2 + kp + kq * 5 + ip + jq + self.seed) % 6 != 0:
-                                            continue
                                         h = (P * 31 + Q * 17 + kp * 7 + kq * 5 + ip * 3 + jq + mt * 11 + nt * 13)
                                         mb, nb = 1 + h % 3, 1 + (h // 3) % 3
                                         lm = mt * mb - (h % mb)
@@ -390,9 +409,11 @@ class C20(Check):
         if kind == "bc":
             sub = "plain" if (v[10], v[11]) == (1, 1) else "kcyclic"
         elif kind == "vec":
-            sub = ("row", "col", "diag")[v[6]] + ("-square" if v[0] == v[1] else "-rect")
+            sub = ("row", "col", "diag-square" if v[0] == v[1] else "diag-rect")[v[6]]
         elif kind == "sym":
             sub = "upper" if v[10] == 121 else "lower"
+        elif kind == "band":
+            sub = "plain" if (v[2], v[3], v[8], v[9]) == (1, 1, 1, 1) else "kcyclic"
         else:
             sub = "all"
         return "%s-%s-%s" % (kind, sub, clause)
@@ -401,4 +422,45 @@ class C20(Check):
         return []
 
 
-C20.theorems = ()
+C20.theorems = (
+    "C20_tmat_init_wf",
+    "C20_bc_rank_in_range",
+    "C20_bc_slot_in_range",
+    "C20_bc_slot_injective",
+    "C20_bc_slot_onto",
+    "C20_bc_tiles_sum",
+    "C20_data_key_roundtrip",
+    "C20_bc_rank_of_key",
+    "C20_bc_plain_stored_key",
+    "C20_bc_kcyclic_stored_key_partial",
+    "C20_bc_kcyclic_stored_key_refuted",
+    "C20_bc_vpid_in_range",
+    "C20_bc_tile_memory",
+    "C20_sym_rank_in_range",
+    "C20_sym_lower_slot_in_range",
+    "C20_sym_lower_slot_injective",
+    "C20_sym_lower_slot_onto",
+    "C20_sym_lower_tiles_sum",
+    "C20_sym_upper_slot_in_range",
+    "C20_sym_upper_slot_injective",
+    "C20_sym_upper_slot_onto",
+    "C20_sym_upper_tiles_sum",
+    "C20_sym_stored_key",
+    "C20_sym_nonsquare_refuted",
+    "C20_tab_slot_in_range",
+    "C20_tab_slot_injective",
+    "C20_tab_slot_onto",
+    "C20_tab_tiles_sum",
+    "C20_tab_index_injective",
+    "C20_vec_rank_in_range",
+    "C20_vec_vpid_in_range",
+    "C20_vec_diag_square_slot_in_range",
+    "C20_vec_diag_square_slot_injective",
+    "C20_vec_diag_square_slot_onto",
+    "C20_vec_diag_square_tiles_sum",
+    "C20_vec_diag_rect_refuted",
+    "C20_vec_row_col_refuted",
+    "C20_band_rank_in_range",
+    "C20_band_slot_in_range",
+    "C20_band_slot_injective",
+)
